@@ -169,7 +169,10 @@ def modelledCodesC : List String :=
    "12A0", "12C0", "12C8", "1470", "1F70", "1FCA", "1FD0", "1FD4", "22B0", "22D0", "22D9", "22F1", "22F7", "22F8", "2389", "2400", "2401", "2420", "2D49", "2E10",
    "3110", "3120", "3200", "3210", "3EF0", "3EF1"]
 
-def isModelled (code : List Char) : Bool := inS (modelledCodes ++ modelledCodesB' ++ modelledCodesC) code
+def modelledCodesD' : List String :=
+  ["22E0", "22E5", "22E9", "22F2", "3221", "3223", "4E01", "4E04", "4E0D", "4E16"]
+
+def isModelled (code : List Char) : Bool := inS (modelledCodes ++ modelledCodesB' ++ modelledCodesC ++ modelledCodesD') code
 
 def zonMode (k : List Char) : Option (List Char) := (lookupS Gen.zonModeMap k).map (·.toList)
 
@@ -846,6 +849,69 @@ def parserC (f : Frame) : Option (Py Parsed) :=
   else if code = s "3EF1" then some (p3EF1 f)
   else none
 
+/-! ### batch D: Itho / Orcon HVAC odds and ends (22E0 22E5 22E9 22F2 3221 3223) and the Autotemp 4Exx codes -/
+
+/-- `parser_22e0` (also 22E5, 22E9): a percentage per byte; when one of them is out of range
+    (`ValueError`) the three-byte reading with the raw middle value -/
+def p22E0 (f : Frame) : Py Parsed :=
+  let p := f.payload
+  let idxs := (List.range ((p.length + 1) / 2)).filter (· ≥ 1) |>.map (· * 2)      -- range(2, len, 2)
+  let first : Py Dict := mapM' (fun i => (jPercent (slice p i (i + 2))).map fun v => ("percent_" ++ toString i, v)) idxs
+  match first with
+  | .error .valueError => do
+    let a ← jPercent (slice p 2 4)
+    let n ← pyInt16 (slice p 4 6)
+    pyAssert (n ≤ 200 || slice p 4 6 = s "E6")
+    let c ← jPercent (slice p 6 8)
+    pure (.dict [("percent_2", a), ("percent_4", .num false (divInt n 200)), ("percent_6", c)])
+  | .error e => .error e
+  | .ok d => .ok (.dict d)
+
+def p22F2 (f : Frame) : Py Parsed :=
+  (mapM' (fun (q : List Char) => do
+    pyAssert (q.take 2 = s "00" || q.take 2 = s "01")
+    let t ← jTemp (q.drop 2)
+    pure ([("hvac_idx", Json.str (q.take 2)), ("measure", t)] : Dict)) (chunks 6 f.payload)).map .list
+
+def p4E01 (f : Frame) : Py Parsed := do
+  let p := f.payload
+  pyAssert (f.blen ≥ 2 && f.blen % 2 = 0)
+  let ng := (f.blen - 2) / 2
+  let y := 2 + ng * 4
+  pyAssert (p.take 2 = s "00")
+  pyAssert (slice p y (y + 2) = s "00")
+  let ts ← mapM' (fun k => jTemp (slice p (2 + 4 * k) (6 + 4 * k))) (List.range ng)
+  pure (.dict [("temperatures", .arr ts)])
+
+def parserD (f : Frame) : Option (Py Parsed) :=
+  let p := f.payload
+  let code := f.code
+  if code = s "22E0" || code = s "22E5" || code = s "22E9" then some (p22E0 f)
+  else if code = s "22F2" then some (p22F2 f)
+  else if code = s "3221" || code = s "3223" then some (do
+    let n ← pyInt16 (p.drop 2)
+    pyAssert (n ≤ 0xC8)
+    pure (.dict [("_payload", .str p), ("value", jNat n)]))
+  else if code = s "4E01" then some (p4E01 f)
+  else if code = s "4E04" then some (do
+    let mode ← match slice p 2 4 with
+      | ['0', '0'] => pure (s "off")
+      | ['0', '1'] => pure (s "heat")
+      | ['0', '2'] => pure (s "cool")
+      | _ => throw .assertionError
+    let n ← pyInt16 (p.drop 4)
+    pyAssert (n < 0x40 || inS ["FB", "FC", "FD", "FE", "FF"] (p.drop 4))
+    pure (.dict [("mode", .str mode), ("_unknown_2", .str (p.drop 4))]))
+  else if code = s "4E0D" then some (.ok (.dict [("_payload", .str p)]))
+  else if code = s "4E14" || code = s "4E20" || code = s "4E21" then some (.ok (.dict []))   -- (no verb of these is in the schema: never decoded)
+  else if code = s "4E16" then some (do
+    pyAssert (p = s "00000000000000")
+    pure (.dict [("_payload", .str p)]))
+  else none
+
+def modelledCodesD : List String :=
+  ["22E0", "22E5", "22E9", "22F2", "3221", "3223", "4E01", "4E04", "4E0D", "4E16"]
+
 def modelledCodesB : List String :=
   ["0002", "0005", "0006", "000C", "0016", "0100", "1030", "1081", "1090", "1100", "12F0", "1300", "1F41", "1FC9", "2E04", "313F", "3B00"]
 
@@ -952,7 +1018,9 @@ def parser (f : Frame) (arr : Bool) : Py Parsed :=
     | some r => r
     | none => match parserC f with
       | some r => r
-      | none => .error .notImplemented
+      | none => match parserD f with
+        | some r => r
+        | none => .error .notImplemented
 
 /-- `str.isnumeric()` on the 3-char seqn -/
 def seqnNumeric (q : List Char) : Bool := q ≠ [] && allB uniDigit q
